@@ -29,7 +29,9 @@ fn ops_on_parsed(p: &RtpPacket) {
 }
 
 fn call_rtp(b: &[u8]) -> String {
-    match RtpPacket::parse(b) {
+    let r = RtpPacket::parse(b);
+    super::mark_alloc();
+    match r {
         Ok(p) => { ops_on_parsed(&p); format!("ok {}", rtp_digest(&p)) }
         Err(e) => err_text(&e),
     }
@@ -99,7 +101,9 @@ pub fn rtcp_digest(p: &RtcpPacket) -> String {
 }
 
 fn call_rtcp(b: &[u8]) -> String {
-    match parse_rtcp_packets(b, None) {
+    let r = parse_rtcp_packets(b, Some("127.0.0.1:5004".parse().unwrap()));
+    super::mark_alloc();
+    match r {
         Ok(ps) => {
             let _ = marshal_rtcp_packets(&ps);          // re-serialising parsed packets must be total
             format!("ok {};{}", ps.len(), ps.iter().map(rtcp_digest).collect::<Vec<_>>().join(";"))
@@ -155,9 +159,9 @@ pub fn targets() -> Vec<Target> {
     vec![
         // rtp: parse copies the input (1·len+60); the parsed-packet operations in the same call (clone, 3×marshal,
         // 2×set_extension) add ≤ 8·len + 2000
-        Target { stream: "rtp", entry: "RtpPacket::parse/ops", call: call_rtp, valid: valid_rtp, alloc: Some((9, 2060)), weight: 2 },
+        Target { stream: "rtp", entry: "RtpPacket::parse/ops", call: call_rtp, valid: valid_rtp, alloc: Some((1, 60)), weight: 2 },
         // rtcp: theorem 40·len+1280; the re-marshal of the parsed packets in the same call adds ≤ 20·len
-        Target { stream: "rtcp", entry: "parse_rtcp_packets", call: call_rtcp, valid: valid_rtcp, alloc: Some((60, 1280)), weight: 3 },
+        Target { stream: "rtcp", entry: "parse_rtcp_packets", call: call_rtcp, valid: valid_rtcp, alloc: Some((40, 1280)), weight: 3 },
     ]
 }
 
@@ -173,14 +177,14 @@ fn mk_header(present: bool, profile: u16, block: &[u8]) -> RtpHeader {
 fn run_getext(run: &mut Run, id: u8, present: bool, profile: u16, block: &[u8], nt: bool) {
     let h = mk_header(present, profile, block);
     let input = format!("{id} {} {profile} {}", present as u8, hex(block));
-    exec(run, "getext", &input, "RtpHeader::get_extension", nt, Some((0, 64, 0)), move || match h.get_extension(id) {
-        None => "ok none".into(), Some(b) => format!("ok some {}", hex(&b)) });
+    exec(run, "getext", &input, "RtpHeader::get_extension", nt, Some((0, 0, 0)), move || { let r = h.get_extension(id); super::mark_alloc(); match r {
+        None => "ok none".into(), Some(b) => format!("ok some {}", hex(&b)) } });
 }
 fn run_setext(run: &mut Run, id: u8, data: &[u8], present: bool, profile: u16, block: &[u8], nt: bool) {
     let mut h = mk_header(present, profile, block);
     let input = format!("{id} {} {} {profile} {}", hex(data), present as u8, hex(block));
     let d = data.to_vec();
-    exec(run, "setext", &input, "RtpHeader::set_extension", nt, Some((10, 200, block.len() as u64)), move || match h.set_extension(id, &d) {
+    exec(run, "setext", &input, "RtpHeader::set_extension", nt, Some((10, 200, block.len() as u64)), move || { super::start_alloc(); let r = h.set_extension(id, &d); super::mark_alloc(); match r {
         Ok(()) => {
             let e = h.extension.as_ref().expect("extension present after set");
             // the rebuilt packet must still marshal (aligned block)
@@ -188,7 +192,7 @@ fn run_setext(run: &mut Run, id: u8, data: &[u8], present: bool, profile: u16, b
             let m = p.marshal();
             format!("ok {}{}", hex(&e.data), if m.is_ok() { "" } else { " marshal-failed" })
         }
-        Err(e) => err_text(&e) });
+        Err(e) => err_text(&e) } });
 }
 fn run_marshal(run: &mut Run, ncsrc: usize, has_ext: bool, ext_len: usize, payload: usize, pad: u8, nt: bool) {
     let mut h = RtpHeader::new(96, 1, 2, 3);
@@ -198,10 +202,13 @@ fn run_marshal(run: &mut Run, ncsrc: usize, has_ext: bool, ext_len: usize, paylo
     p.padding_len = pad;
     let input = format!("{ncsrc} {} {ext_len} {payload} {pad}", has_ext as u8);
     let total = (12 + 4 * ncsrc + if has_ext { 4 + ext_len } else { 0 } + payload + pad as usize) as u64;
-    exec(run, "marshal", &input, "RtpPacket::marshal", nt, Some((1, 64, total)), move || {
+    exec(run, "marshal", &input, "RtpPacket::marshal", nt, Some((1, 0, total)), move || {
+        super::start_alloc();
+        let r = p.marshal();
+        super::mark_alloc();
         let mut buf = Vec::new();
         p.marshal_into(&mut buf);                         // the unchecked fast path must be total as well
-        match p.marshal() { Ok(v) => { assert_eq!(v.len(), buf.len()); format!("ok {}", v.len()) } Err(e) => err_text(&e) } });
+        match r { Ok(v) => { assert_eq!(v.len(), buf.len()); format!("ok {}", v.len()) } Err(e) => err_text(&e) } });
 }
 
 fn gen_block(rng: &mut Rng) -> Vec<u8> {
